@@ -575,7 +575,13 @@ func (s *Subtitles) Fragment(f time.Duration) {
 
 	// Here we want to simulate fragments of duration f until there are no subtitles left in that period of time
 	var fragmentStartAt, fragmentEndAt = time.Duration(0), f
-	for fragmentStartAt < s.Items[len(s.Items)-1].EndAt {
+	var lastEndAt time.Duration
+	for _, i := range s.Items {
+		if i.EndAt > lastEndAt {
+			lastEndAt = i.EndAt
+		}
+	}
+	for fragmentStartAt < lastEndAt {
 		// We loop through subtitles and process the ones that either contain the fragment start at,
 		// or contain the fragment end at
 		//
@@ -583,8 +589,9 @@ func (s *Subtitles) Fragment(f time.Duration) {
 		//             |____________________|             <- subtitle
 		//           |                        |
 		//   fragment start at        fragment end at
-		for i, sub := range s.Items {
+		for i := 0; i < len(s.Items); i++ {
 			// Init
+			var sub = s.Items[i]
 			var newSub = &Item{}
 			*newSub = *sub
 
@@ -610,6 +617,9 @@ func (s *Subtitles) Fragment(f time.Duration) {
 
 			// Insert new sub
 			s.Items = append(s.Items[:i], append([]*Item{newSub}, s.Items[i:]...)...)
+
+			// Skip the remainder that has just been shifted to the next index
+			i++
 		}
 
 		// Update fragments boundaries
